@@ -266,7 +266,9 @@ type midErr struct {
 	cause error
 }
 
-func (e *midErr) Error() string { return "node " + e.Node + " failed while streaming: " + e.cause.Error() }
+func (e *midErr) Error() string {
+	return "node " + e.Node + " failed while streaming: " + e.cause.Error()
+}
 func (e *midErr) Unwrap() error { return e.cause }
 
 // ---------------------------------------------------------------- node bodies
